@@ -46,7 +46,29 @@ def ew_case(draw):
 def c02_case(draw):
     case = draw(dc.derivative_case(full_output=True, n_min=1))
     case['meta_k'] = draw(st.sampled_from([None, None, None, 1, -1, 3, 10, -7, 20]))
+    if draw(st.integers(0, 4)) == 0:
+        stationary(case)
     return case
+
+
+def stationary(case):
+    """Turn the case into one whose exact n-th derivative at x0 is (nearly) zero while the truncation
+    error of the difference formulas is not: f(x) = g(x) - c (x - x0)^n / n! with c = g^(n)(x0)
+    rounded to double.  An estimate that is (wrongly) proportional to |value| is near zero there."""
+    from nverif.oracle import jets
+    n, x0 = case['n'], case['x'][0]
+    try:
+        c = float(jets.derivative_from_jet(exprs.jet_eval(case['tree'], x0, n + 1)[-1], n))
+    except Exception:
+        return
+    if not math.isfinite(c) or c == 0.0 or not (1e-100 < abs(c / math.factorial(n)) < 1e100):
+        return
+    mono = ['x'] if False else ['-', ['x'], ['c', x0]]
+    poly = mono if n == 1 else ['powi', mono, n]
+    case['tree'] = ['-', case['tree'], ['*', ['c', c / math.factorial(n)], poly]]
+    case['x'] = [x0]
+    case['shape'] = None
+    case['stationary'] = True
 
 
 class C02(Prop):
@@ -69,7 +91,7 @@ class C02(Prop):
     )
     constants = {'K_HONEST': K_HONEST, 'KAPPA': KAPPA, 'COVERAGE_MIN': COVERAGE_MIN, 'Q50_MAX': Q50_MAX,
                  'Q90_MAX': Q90_MAX, 'POOL_MIN': POOL_MIN, 'POOLED': POOLED}
-    examples = {'quick': 300, 'thorough': 8000}
+    examples = {'quick': 380, 'thorough': 8000}
 
     def strategy(self, tier):
         from nverif.props import c02mv
@@ -175,7 +197,7 @@ class C02(Prop):
             from nverif.props import c02mv
             ctx.count('family=multivariate (%s)' % case.get('cls'))
             return c02mv.check_mv(case, ctx)
-        ctx.count('family=Derivative')
+        ctx.count('family=Derivative%s' % (' (stationary point)' if case.get('stationary') else ''))
         ev = dc.evaluate(case, ctx)
         method, n, order = case['method'], case['n'], case['order']
         cplx = case.get('wrap') is not None
